@@ -90,6 +90,9 @@ dev_impl! {
         out.push(("cumulative_sum", Self::c06_un(Some(sizes.cumulative_sum()))));
         out.push(("injections", Self::c06_un(sizes.injections(&idx))));
         out.push(("is_injective", Val::Bool(p.is_injective())));
+        // a table is (the table of) a function into {0..target} iff every entry is below the target
+        out.push(("new-accepts-exactly-functions", Val::Bool(FiniteFunction::<K>::new(K::ix(c.p.0.clone()), c.x).is_some())));
+        out.push(("new-accepts-exactly-functions-b", Val::Bool(FiniteFunction::<K>::new(K::ix(c.r.0.clone()), c.a).is_some())));
         // the semifinite wrapper: finite ; finite, finite ; label array, identities, sources and targets
         {
             use open_hypergraphs::semifinite::{SemifiniteArrow, SemifiniteObject};
@@ -268,6 +271,8 @@ fn control_ref(c: &Case, name: &str) -> Val {
             Val::F(Some((t, *off.last().unwrap())))
         }
         "is_injective" => Val::Bool((0..p.0.len()).all(|i| !p.0[..i].contains(&p.0[i]))),
+        "new-accepts-exactly-functions" => Val::Bool(p.0.iter().all(|v| *v < c.x)),
+        "new-accepts-exactly-functions-b" => Val::Bool(r.0.iter().all(|v| *v < a)),
         "semifinite-compose-finite" => Val::F(if p.1 == r.0.len() { Some((p.0.iter().map(|i| r.0[*i]).collect(), r.1)) } else { None }),
         "semifinite-compose-labels" => Val::Lab(if p.1 == c.labels.len() { Some(p.0.iter().map(|i| c.labels[*i]).collect()) } else { None }),
         "semifinite-labels-not-composable-on-the-left" => Val::Bool(true),
